@@ -19,10 +19,12 @@ import (
 var tlsNames = []string{"acra-writer", "acra-writer-2", "acra-client"}
 
 type tlsIdentity struct {
-	auth credentials.AuthInfo // what TLSConnectionWrapper.ServerHandshake attached to the connection
-	id   []byte               // the client id Acra derived from the certificate
-	conn net.Conn             // the wrapped server side connection (carries the id for the HTTP API)
-	err  error
+	auth   credentials.AuthInfo // what TLSConnectionWrapper.ServerHandshake attached to the connection
+	id     []byte               // the client id Acra derived from the certificate
+	conn   net.Conn             // the wrapped server side connection (carries the id for the HTTP API)
+	client net.Conn             // the client side of the TLS connection
+	raw    net.Conn             // the pipe end under the client side (closed directly: tls.Conn.Close would wait for the peer to read its alert)
+	err    error
 }
 
 var (
@@ -74,10 +76,10 @@ func handshake(name string) *tlsIdentity {
 	}
 	c1, c2 := net.Pipe()
 	done := make(chan error, 1)
+	tc := tls.Client(c1, clientCfg)
 	go func() {
-		tc := tls.Client(c1, clientCfg)
 		done <- tc.Handshake()
-		// keep the client side open: the server side connection object stays usable as an identity carrier
+		// the client side stays open: the server side connection object remains usable as an identity carrier
 	}()
 	conn, auth, err := wrapper.ServerHandshake(c2)
 	if cerr := <-done; cerr != nil && err == nil {
@@ -90,7 +92,7 @@ func handshake(name string) *tlsIdentity {
 	if !ok {
 		return &tlsIdentity{err: fmt.Errorf("no client id on the handshaken connection")}
 	}
-	return &tlsIdentity{auth: auth, id: id, conn: conn}
+	return &tlsIdentity{auth: auth, id: id, conn: conn, client: tc, raw: c1}
 }
 
 func initTLS() {
